@@ -13,7 +13,7 @@ pub fn corpus() -> Vec<&'static str> {
          "#(1 2 #(3))", "#u8(1 2 3)", "'a", "'(a . b)", "`(a ,b ,@c)", "(a . 'b)", "(a . `(b))", "((a . b) . (c . d))", "(.a .b)", "(a .b)", "\"s\" #\\c 1.5 -3 #t #f #nil nil t",
          "#:k :k k:", "()", "(())", "[ ]", "#()", "(a", "(a . b c)", "(a . )", "( . a)", "(a]", "[a)", "#(1", "'", "(a . b", "1 2 (3 4", "a ) b", "#u8(1 300)",
          "(a b . c d)", "((((a))))", "(nil . nil)", "(t . t)", "x ; c\n y", "#(a . b)", "[a . b)", "(a . b]", "'[a . b]", "#([a . b])", "(1 #z) 2", "#(1 #z) 2", "(a . ())", "'a '(1 2)", "(define x '(1 2))", "#('a)", "(a . (b . ()))",
-         "(a .(b c))", "(1 .[2 3])", "(a .; c\n b)", "(k .\"text\")", "(a .)", "(a .'b)", "(a .#t)", "(a . .b)", "(-;c\n)", "(a -(b))", "(+)", "(a +\"s\")", "-;c\n", "(a . b;c\n)", "(a .\tb)", "(a(b)\"s\"[c])", "#(1 2]", "[1 2)", "(a #(1 2] b)", "nil (nil) (a . nil) #(nil) 'nil [nil]", "t (t) 't"]
+         "(a .(b c))", "(1 .[2 3])", "(a .; c\n b)", "(k .\"text\")", "(a .)", "(a .'b)", "(a .#t)", "(a . .b)", "(-;c\n)", "(a -(b))", "(+)", "(a +\"s\")", "-;c\n", "(a . b;c\n)", "(a .\tb)", "(a(b)\"s\"[c])", "#(1 2]", "[1 2)", "(a #(1 2] b)", "nil (nil) (a . nil) #(nil) 'nil [nil]", "t (t) 't", "(a . ", "(a .", "x #((1 . ", "", "  ", "; c", "a b", "(1 2) 3", "(1 2))", "1 ]", "[a b]", "[]", "(let ([x 1]) x)", "#([1 2] 3)", "[x . tok]", "[x y . b]", "'", "(a '", "#(a `", "' a", "`  ; c\n (a)", "(a . b )", "(1 2 . 3 ;c\n)"]
 }
 pub fn optsets() -> Vec<Options> {
     vec![Options::default(), Options::new(), Options::elisp(), Options::new().with_brackets(Brackets::Vector),
@@ -115,6 +115,12 @@ fn check(case: &str) -> Option<String> {
                     }
                 }
             }
+            // the one-shot entry points of the two APIs: same value, or the same error
+            let show = |r: Result<Value, lexpr::parse::Error>| match r { Ok(v) => format!("Ok({})", v), Err(e) => format!("Err({})", e) };
+            let pairs = [("from_str_custom", show(lexpr::from_str_custom(text, o.clone())), show(lexpr::datum::from_str_custom(text, o.clone()).map(Value::from))),
+                         ("from_slice_custom", show(lexpr::from_slice_custom(text.as_bytes(), o.clone())), show(lexpr::datum::from_slice_custom(text.as_bytes(), o.clone()).map(Value::from))),
+                         ("from_reader_custom", show(lexpr::from_reader_custom(text.as_bytes(), o.clone())), show(lexpr::datum::from_reader_custom(text.as_bytes(), o.clone()).map(Value::from)))];
+            for (name, a, b) in pairs { if a != b { return Some(format!("{:?}: lexpr::{} gives {}, lexpr::datum::{} gives {}", text, name, a, name, b)); } }
             None
         }
         "walk" | "walkx" => {
